@@ -165,8 +165,11 @@ def build_bipartite(g):
     kind = g.get('as', 'cnfgen')
     if kind == 'networkx':
         G = networkx.Graph()
-        G.add_nodes_from(range(1, L + 1), bipartite=0)
-        G.add_nodes_from(range(L + 1, L + R + 1), bipartite=1)
+        # the side of a vertex may be given as 0/1 or as the text '0'/'1' (what a GML or DOT file delivers): both are
+        # documented; graphs with an odd number of edges use the text form
+        zero, one = ('0', '1') if len(g['edges']) % 2 else (0, 1)
+        G.add_nodes_from(range(1, L + 1), bipartite=zero)
+        G.add_nodes_from(range(L + 1, L + R + 1), bipartite=one)
         G.add_edges_from((u, L + v) for u, v in g['edges'])
         G.name = 'nx bipartite graph'
         return G
